@@ -205,6 +205,35 @@ def commit_last(ctx):
         )
 
 
+def stores_after_generation(ctx):
+    """No cache entry of a resolution is written while the wrappers of its ranks are still to be generated: generating
+    them runs user code (a dependent type's code generation, key and repr hooks) that may throw."""
+    from .c10 import _wrap_site
+
+    res, call, w = _wrap_site(ctx)
+    multi = A.multimap(ctx.repo)
+    ctx.touch(res)
+    stores = [(m, st, ww, k) for (m, st, ww, k) in cache_stores(ctx, multi, tables=(DICT, "errors")) if m is res]
+    ctx.require(stores, f"{res.key}: no cache store")
+    cfg = cfg_of(ctx, res)
+    rv = recv_name(res)
+    gen = [st for st in all_stmts(res.node) if any(is_self_attr(c.func, w.name, selfname=rv) for c in stmt_calls(st))]
+    ctx.require(gen, f"{res.key}: wrapper generation not found")
+    early = None
+    for m, st, ww, k in stores:
+        r = cfg.reachable(cfg.node_of(st))
+        ahead = [g for g in gen if cfg.node_of(g) in r]
+        if ahead and early is None:
+            early = (st, ahead[0])
+    ctx.ob(
+        f"{res.key}:stores-after-generation",
+        res.loc(early[0]) if early else res.loc(),
+        f"every cache write of the resolution ({len(stores)}) comes after the last wrapper was generated",
+        early is None,
+        (f"`{short(early[0], 50)}` is written while `{short(early[1], 40)}` is still to run: if a user-defined type's code generation throws there, the entry stays cached without its continuations - later calls run the method and its call_next answers 'No method' although a next method exists, also after the hook is repaired" if early else ""),
+    )
+
+
 def r3_rewriter_globals_last(ctx):
     rc = A.recompiler(ctx.repo)
     ctx.touch(rc)
@@ -309,6 +338,7 @@ def r1(ctx):
 
 def r2(ctx):
     commit_last(ctx)
+    stores_after_generation(ctx)
 
 
 def _more(name):
